@@ -1,6 +1,7 @@
 /- C07 — decompression is faithful for any chunking, and bombs are contained.
 
-   inflate() is external: the model of the driver (`decompress`, `decLoop`, `decSend`, `decFinalCallback` in Conn/TxState.lean and the
+   inflate() is external: the model of the driver (`decompress`, `decLoop`, `decStep`, `decSend`, `decFinalCallback` in Conn/TxState.lean, one driver for the response chain and for the
+   request decompressor (`req`) and the
    Content-Encoding chain construction `ceChain`) takes its results as a parameter. The correspondence check runs that model against
    the results recorded from the real calls (hook under LIBHTP_VERIF) and compares every callback with the implementation. Proved
    here, for ANY behaviour of inflate() and any input:
@@ -92,23 +93,23 @@ theorem C07_layers_bound (cfg : Cfg) (value : Bytes) (hl : 0 < cfg.layerLimit) :
 
 /-- **C07 (pass-through is verbatim)**: a layer in pass-through mode hands every chunk, and the end-of-stream marker, to the callback
     exactly as it received them - nothing is dropped, nothing is inflated. -/
-theorem C07_passthrough_verbatim (uid fuel : Nat) (drec : Dec) (rest : List Dec) (data : Option Bytes) (c : Conn) (hp : drec.passthrough = true) :
-    decompress uid (fuel + 1) (drec :: rest) data c =
-      (drec :: rest, ((decFinalCallback uid data c).1, if (decFinalCallback uid data c).2 != .ok then .error else .ok)) := by
+theorem C07_passthrough_verbatim (cfg : Cfg) (req : Bool) (uid fuel : Nat) (drec : Dec) (rest : List Dec) (data : Option Bytes) (c : Conn) (hp : drec.passthrough = true) :
+    decompress cfg req uid (fuel + 1) (drec :: rest) data c =
+      (drec :: rest, ((decFinalCallback cfg req uid data.isNone data c).1, if (decFinalCallback cfg req uid data.isNone data c).2 != .ok then .error else .ok)) := by
   unfold decompress
   simp [hp]
 
 /-- **C07 (data that cannot be inflated is passed on, not lost)**: when inflate() rejects the input with nothing in the output buffer
     and every restart has been used up, the whole chunk as it was received goes to the callback and the layer switches to
     pass-through. -/
-theorem C07_failed_inflate_passes_chunk (uid fuel : Nat) (d inp : Bytes) (drec : Dec) (rest : List Dec) (c : Conn) (z : ZRes) (zs : List ZRes)
+theorem C07_failed_inflate_passes_chunk (cfg : Cfg) (req : Bool) (uid fuel : Nat) (d inp : Bytes) (drec : Dec) (rest : List Dec) (c : Conn) (z : ZRes) (zs : List ZRes)
     (hin : inp ≠ []) (hb : drec.buf = []) (hk : drec.kind = 2 ∨ drec.kind = 3) (hr : 3 ≤ drec.restart)
     (hz : c.zoracle = z :: zs) (hprod : z.produced = []) (hrc : z.rc ≠ Z_OK ∧ z.rc ≠ Z_STREAM_END) :
-    decLoop uid d (fuel + 1) drec rest inp c =
-      (if (decFinalCallback uid (some d) { c with zoracle := zs }).2 != .ok
-       then ({ drec with kind := 0 } :: rest, ((decFinalCallback uid (some d) { c with zoracle := zs }).1, Rc.error))
-       else ({ drec with kind := 0, buf := [], passthrough := true } :: rest, ((decFinalCallback uid (some d) { c with zoracle := zs }).1, Rc.ok))) := by
-  unfold decLoop
+    decStep cfg req uid d (fuel + 1) drec rest inp c =
+      (if (decFinalCallback cfg req uid false (some d) { c with zoracle := zs }).2 != .ok
+       then ({ drec with kind := 0 } :: rest, ((decFinalCallback cfg req uid false (some d) { c with zoracle := zs }).1, Rc.error))
+       else ({ drec with kind := 0, buf := [], passthrough := true } :: rest, ((decFinalCallback cfg req uid false (some d) { c with zoracle := zs }).1, Rc.ok))) := by
+  unfold decStep
   have h1 : inp.isEmpty = false := by cases inp with | nil => exact absurd rfl hin | cons a t => rfl
   have h2 : (List.length drec.buf == GZIP_BUF_SIZE) = false := by rw [hb]; decide
   have h3 : (drec.kind == 4) = false := by rcases hk with h | h <;> simp [h]
